@@ -156,6 +156,8 @@ pub struct ExecOpts {
     /// finished while that kernel side is still at a point, letting it go on is a use after free - report it
     /// instead of crashing
     pub kernel_must_not_outlive: bool,
+    /// a tick advances virtual time by one pending deadline only (scenarios whose timers fire in event loops)
+    pub tick_single: bool,
 }
 
 /// `actor` is not offered for its `nth` pass of `site` until `until_actor` has passed `until_site`
@@ -199,6 +201,7 @@ impl Default for ExecOpts {
             kick_workers: vec![],
             no_holdback: false,
             kernel_must_not_outlive: false,
+            tick_single: false,
         }
     }
 }
@@ -498,7 +501,7 @@ pub fn execute(
                         }
                     }
                     "tick" => {
-                        tick(ctl);
+                        tick_n(ctl, if opts.tick_single { 1 } else { 64 });
                         if !opts.kick_workers.is_empty() {
                             kick_workers(&opts.kick_workers);
                         }
@@ -525,7 +528,7 @@ pub fn execute(
                     if ctl.next_timer().is_some() {
                         schedule.push(Step::Env { what: "tick".into(), arg: String::new() });
                         ctl.log_env("tick", "", &names);
-                        tick(ctl);
+                        tick_n(ctl, if opts.tick_single { 1 } else { 64 });
                         if !opts.kick_workers.is_empty() {
                             kick_workers(&opts.kick_workers);
                         }
@@ -638,8 +641,13 @@ pub fn kick_workers(ws: &[usize]) {
 /// advance virtual time to the next pending deadline, repeatedly, until a timer really fires
 /// (stale entries of timers that were removed in the meantime do not count) or none is pending
 pub fn tick(ctl: &'static Ctrl) {
+    tick_n(ctl, 64)
+}
+/// `max` = 1: exactly one step of virtual time (to the next pending deadline), whoever owns that timer - io time-outs are
+/// handled by the workers' event loops, which the controller cannot see firing
+pub fn tick_n(ctl: &'static Ctrl, max: usize) {
     let before = ctl.lock().fired;
-    for _ in 0..64 {
+    for _ in 0..max {
         let Some(t) = ctl.next_timer() else { break };
         ctl.advance_clock(t);
         let q = ctl.timer_quiet(300, before);
